@@ -116,4 +116,29 @@ pub fn run(ctx: &Ctx) {
             }
         }).distinct());
     }
+    // history: the result of one construction must not depend on the constructions before it
+    // (memoised "current second", shared scratch state): ALL ordered pairs of (unit, input) symbols,
+    // where the same raw numbers occur under both units
+    {
+        let mut raw: Vec<u64> = vec![0, 1, 299, 300, 999, 1000, 1001, 1999, 2000, 59_999, 60_000, 999_999, 1_000_000, 1_000_001, 1_000_300, 4_999_999, 5_000_000, 5_000_300, 5_999_999, 6_000_000, 1_700_000_000, 1_700_000_000_000, 1_700_000_000_300, 1_700_000_000_000_000, 1_700_000_000_000_300, 1_700_000_000_999_999, 1_700_000_001_000_000];
+        for k in [10u32, 20, 31, 32, 33, 40, 41, 42] {
+            let p = 1u64 << k;
+            raw.extend_from_slice(&[p - 1, p, p + 1, p + 300, p + 1000, p + 1_000_000]);
+        }
+        for per in [1000u64, 1_000_000] {
+            let max = (u32::MAX as u64) * per + (per - 1);
+            raw.extend_from_slice(&[max, max - 1, max - per, max - per + 1, (u32::MAX as u64) * per, (1u64 << 31) * per, (1u64 << 31) * per - 1]);
+        }
+        raw.sort_unstable();
+        raw.dedup();
+        let syms: Vec<(&'static str, u64)> = [("ms", 1000u64), ("us", 1_000_000u64)].iter().flat_map(|(u, per)| raw.iter().filter(move |v| **v <= (u32::MAX as u64) * per + (per - 1)).map(move |v| (*u, *v))).collect();
+        let n = syms.len() as u64;
+        let syms = &syms;
+        ctx.run_family(Family::new("c17.history", n * n, format!("ALL ordered pairs (a, b) over {} symbols (unit, input): {} raw numbers (sub-second, second and minute boundaries, present-day epoch values, powers of two, the ends of both domains) under each unit in whose domain they lie; a is constructed, then b is judged twice on the same thread", n, raw.len()), move |idx, loc| {
+            let (a, b) = (syms[(idx / n) as usize], syms[(idx % n) as usize]);
+            let _ = catch(|| if a.0 == "ms" { DltTimeStamp::from_ms(a.1) } else { DltTimeStamp::from_us(a.1) });
+            judge(b.0, b.1, loc);
+            judge(b.0, b.1, loc);
+        }).distinct());
+    }
 }
